@@ -58,7 +58,22 @@ type av struct {
 }
 
 type acfg struct {
-	rank []int // rank of each symbol (0 = the empty string, the minimum)
+	rank []int    // rank of each symbol (0 = the empty string, the minimum)
+	pfx  [][]bool // optional: pfx[i][j] = symbol i is a prefix of symbol j (relational domain of PREFIXALG)
+}
+
+// prefixOf: abstract bytes.HasPrefix(s, pre).
+func (it *ainterp) prefixOf(pre, s av) (bool, bool) {
+	if it.cfg.pfx == nil || pre.k != akBytes || s.k != akBytes {
+		return false, false
+	}
+	if pre.isNil {
+		return true, true
+	}
+	if s.isNil {
+		return it.rankOf(pre) == 0, true
+	}
+	return it.cfg.pfx[pre.sym][s.sym], true
 }
 
 type ainterp struct {
@@ -361,6 +376,24 @@ func (it *ainterp) binop(op token.Token, l, r av, fn *ssa.Function) av {
 				return av{k: akBool, b: !eq}
 			}
 		}
+		if l.k == akBytes && r.k == akBytes && !l.isNil && !r.isNil {
+			// Go strings (converted key bytes): ordered by rank
+			d := it.rankOf(l) - it.rankOf(r)
+			switch op {
+			case token.EQL:
+				return av{k: akBool, b: d == 0}
+			case token.NEQ:
+				return av{k: akBool, b: d != 0}
+			case token.LSS:
+				return av{k: akBool, b: d < 0}
+			case token.LEQ:
+				return av{k: akBool, b: d <= 0}
+			case token.GTR:
+				return av{k: akBool, b: d > 0}
+			case token.GEQ:
+				return av{k: akBool, b: d >= 0}
+			}
+		}
 		if l.k == akPtr && r.k == akPtr {
 			eq := l.obj == r.obj && l.off == r.off
 			if op == token.EQL {
@@ -425,6 +458,13 @@ func (it *ainterp) doCall(c *ssa.Call, val func(ssa.Value) av, depth int) av {
 	case "bytes.Equal":
 		l, r := val(c.Call.Args[0]), val(c.Call.Args[1])
 		return av{k: akBool, b: it.rankOf(l) == it.rankOf(r)}
+	case "bytes.HasPrefix", "strings.HasPrefix":
+		b, ok := it.prefixOf(val(c.Call.Args[1]), val(c.Call.Args[0]))
+		if !ok {
+			it.fail("HasPrefix outside the abstract domain")
+			return av{}
+		}
+		return av{k: akBool, b: b}
 	case "fmt.Println", "fmt.Printf":
 		return av{k: akTuple, tup: []av{{k: akInt}, {k: akUnknown}}}
 	}
@@ -882,4 +922,443 @@ func head(s []string, n int) []string {
 		return append(append([]string{}, s[:n]...), "...")
 	}
 	return s
+}
+
+// ---------------- PREFIXALG ----------------
+//
+// The prefix members of the algebra (intersectionPrefix, unionPrefix, intersectionPrefixAndRange,
+// unionPrefixAndRange, intersectionMgetAndPrefix, unionMgetAndPrefix) touch their key operands
+// through bytes.Compare/Equal, HasPrefix, string comparison and nil tests only. Their behaviour
+// is a function of the relational structure (weak order, prefix relation, nil pattern) of the
+// operand strings. That structure ranges over a finite set for a fixed number of strings; it is
+// enumerated through canonical representatives (all strings over {a,b} up to length 4, which
+// realise every order/prefix structure of up to four strings), and region membership of an
+// additional probe key - again only its relations to the operands matter - decides containment.
+
+func init() {
+	register("PREFIXALG", "prefix members of the scan-range algebra, decided over the complete finite domain of (order, prefix-relation, nil) structures of the operand strings plus one probe key: AND of a prefix with a prefix / range / key set yields a region containing every key both operands contain [sound, C02], and no key when the operands share none [tight, C18]; OR yields a region containing every key of either operand [sound, C02]", rulePrefixAlg)
+}
+
+type relCfg struct {
+	rep  []string
+	rank []int
+	pfx  [][]bool
+}
+
+func relStructure(rep []string) *relCfg {
+	n := len(rep)
+	c := &relCfg{rep: append([]string(nil), rep...), rank: make([]int, n), pfx: make([][]bool, n)}
+	uniq := map[string]bool{}
+	for _, s := range rep {
+		uniq[s] = true
+	}
+	var sorted []string
+	for s := range uniq {
+		sorted = append(sorted, s)
+	}
+	sort.Strings(sorted)
+	base := 1
+	if len(sorted) > 0 && sorted[0] == "" {
+		base = 0
+	}
+	pos := map[string]int{}
+	for i, s := range sorted {
+		pos[s] = i + base
+	}
+	for i := range rep {
+		c.rank[i] = pos[rep[i]]
+		c.pfx[i] = make([]bool, n)
+		for j := range rep {
+			c.pfx[i][j] = strings.HasPrefix(rep[j], rep[i])
+		}
+	}
+	return c
+}
+
+func (c *relCfg) sig(n int) string {
+	var b strings.Builder
+	for i := 0; i < n; i++ {
+		fmt.Fprintf(&b, "%d", c.rank[i])
+		for j := 0; j < n; j++ {
+			if c.pfx[i][j] {
+				b.WriteByte('p')
+			} else {
+				b.WriteByte('-')
+			}
+		}
+		b.WriteByte(';')
+	}
+	return b.String()
+}
+
+var relUniverse = func() []string {
+	u := []string{""}
+	var rec func(pre string, d int)
+	rec = func(pre string, d int) {
+		if d == 0 {
+			return
+		}
+		for _, ch := range "ab" {
+			s := pre + string(ch)
+			u = append(u, s)
+			rec(s, d-1)
+		}
+	}
+	rec("", 4)
+	return u
+}()
+
+// relGroups enumerates the structures of n operand strings; for each, the structures of the
+// operands extended with one probe string. Structures are identified by their pairwise
+// (order, prefix) codes.
+var relPair = func() [][]uint8 {
+	u := relUniverse
+	m := make([][]uint8, len(u))
+	for i := range u {
+		m[i] = make([]uint8, len(u))
+		for j := range u {
+			var c uint8
+			switch {
+			case u[i] < u[j]:
+				c = 0
+			case u[i] == u[j]:
+				c = 1
+			default:
+				c = 2
+			}
+			if strings.HasPrefix(u[j], u[i]) {
+				c += 3
+			}
+			if strings.HasPrefix(u[i], u[j]) {
+				c += 6
+			}
+			m[i][j] = c
+		}
+	}
+	return m
+}()
+
+func relGroups(n int, admit func(rep []string) bool) (groups []*relCfg, probes map[string][]*relCfg) {
+	probes = map[string][]*relCfg{}
+	seenG := map[uint64]string{}
+	seenP := map[uint64]bool{}
+	idx := make([]int, n+1)
+	cur := make([]string, n+1)
+	code := func(m int) uint64 {
+		var c uint64
+		for i := 0; i < m; i++ {
+			for j := i + 1; j < m; j++ {
+				c = c*12 + uint64(relPair[idx[i]][idx[j]])
+			}
+		}
+		return c
+	}
+	var rec func(i int)
+	var gcode uint64
+	rec = func(i int) {
+		if i == n {
+			if !admit(cur[:n]) {
+				return
+			}
+			gcode = code(n)
+		}
+		if i == n+1 {
+			fc := code(n + 1)
+			if seenP[fc] {
+				return
+			}
+			seenP[fc] = true
+			gs, ok := seenG[gcode]
+			if !ok {
+				g := relStructure(cur[:n])
+				gs = g.sig(n)
+				seenG[gcode] = gs
+				groups = append(groups, g)
+			}
+			probes[gs] = append(probes[gs], relStructure(cur))
+			return
+		}
+		for k, s := range relUniverse {
+			idx[i], cur[i] = k, s
+			rec(i + 1)
+		}
+	}
+	rec(0)
+	return
+}
+
+// member decides whether the probe (symbol index k of cfg) lies in the region an abstract *ScanType denotes.
+func memberOfScan(c *relCfg, v av, sc map[string]int64, k int) (in bool, ok bool) {
+	if v.k != akPtr || v.obj == nil || len(v.obj.elems) < 2 {
+		return false, false
+	}
+	tp := v.obj.elems[0]
+	keys := v.obj.elems[1]
+	var ks []av
+	if keys.k == akSlice && keys.obj != nil {
+		ks = keys.obj.elems[keys.lo:keys.hi]
+	}
+	rk := func(x av) int {
+		if x.isNil {
+			return 0
+		}
+		return c.rank[x.sym]
+	}
+	switch tp.i {
+	case sc["EMPTY"]:
+		return false, true
+	case sc["FULL"]:
+		return true, true
+	case sc["MGET"]:
+		for _, x := range ks {
+			if x.k != akBytes {
+				return false, false
+			}
+			if rk(x) == c.rank[k] {
+				return true, true
+			}
+		}
+		return false, true
+	case sc["PREFIX"]:
+		if len(ks) < 1 || ks[0].k != akBytes {
+			return false, false
+		}
+		if ks[0].isNil {
+			return true, true
+		}
+		return c.pfx[ks[0].sym][k], true
+	case sc["RANGE"]:
+		if len(ks) != 2 || ks[0].k != akBytes || ks[1].k != akBytes {
+			return false, false
+		}
+		in := true
+		if !ks[0].isNil && rk(ks[0]) > c.rank[k] {
+			in = false
+		}
+		if !ks[1].isNil && c.rank[k] > rk(ks[1]) {
+			in = false
+		}
+		return in, true
+	}
+	return false, false
+}
+
+func showRel(names []string, c *relCfg, nilMask []bool) string {
+	var parts []string
+	for i, nm := range names {
+		if i < len(nilMask) && nilMask[i] {
+			parts = append(parts, nm+"=nil")
+		} else {
+			parts = append(parts, fmt.Sprintf("%s=%q", nm, c.rep[i]))
+		}
+	}
+	return strings.Join(parts, " ")
+}
+
+func rulePrefixAlg(p *Prog, r *Result) {
+	sc, missing := p.scanConsts()
+	if len(missing) > 0 {
+		r.undecided("anchor: scan kind constants %v not found", missing)
+		return
+	}
+	recv := av{k: akPtr, obj: &aobj{elems: []av{{k: akUnknown}, {k: akUnknown}, {k: akUnknown}}}, off: -1}
+	type operand struct {
+		kind string // PREFIX | RANGE | MGET
+		syms []int
+	}
+	type spec struct {
+		name  string
+		mode  string
+		names []string
+		ops   [2]operand
+		masks [][]bool // nil patterns over the operand symbols
+	}
+	none := func(n int) [][]bool { return [][]bool{make([]bool, n)} }
+	rangeMasks := [][]bool{{false, false, false}, {false, true, false}, {false, false, true}}
+	specs := []spec{
+		{"intersectionPrefix", "and", []string{"p1", "p2"}, [2]operand{{"PREFIX", []int{0}}, {"PREFIX", []int{1}}}, none(2)},
+		{"unionPrefix", "or", []string{"p1", "p2"}, [2]operand{{"PREFIX", []int{0}}, {"PREFIX", []int{1}}}, none(2)},
+		{"intersectionPrefixAndRange", "and", []string{"p", "rstart", "rend"}, [2]operand{{"PREFIX", []int{0}}, {"RANGE", []int{1, 2}}}, rangeMasks},
+		{"unionPrefixAndRange", "or", []string{"p", "rstart", "rend"}, [2]operand{{"PREFIX", []int{0}}, {"RANGE", []int{1, 2}}}, rangeMasks},
+		{"intersectionMgetAndPrefix", "and", []string{"k1", "p"}, [2]operand{{"MGET", []int{0}}, {"PREFIX", []int{1}}}, none(2)},
+		{"intersectionMgetAndPrefix", "and", []string{"k1", "k2", "p"}, [2]operand{{"MGET", []int{0, 1}}, {"PREFIX", []int{2}}}, none(3)},
+		{"unionMgetAndPrefix", "or", []string{"k1", "p"}, [2]operand{{"MGET", []int{0}}, {"PREFIX", []int{1}}}, none(2)},
+		{"unionMgetAndPrefix", "or", []string{"k1", "k2", "p"}, [2]operand{{"MGET", []int{0, 1}}, {"PREFIX", []int{2}}}, none(3)},
+	}
+	total := 0
+	type acc struct {
+		n                     int
+		unsound, loose, errs []string
+		pos                   string
+		mode                  string
+	}
+	accs := map[string]*acc{}
+	var order []string
+	for _, sp := range specs {
+		fn := p.MethodByName("FilterOptimizer", sp.name)
+		if fn == nil {
+			r.undecided("anchor: (*FilterOptimizer).%s not found", sp.name)
+			continue
+		}
+		a := accs[sp.name]
+		if a == nil {
+			a = &acc{pos: p.Pos(fn.Pos()), mode: sp.mode}
+			accs[sp.name] = a
+			order = append(order, sp.name)
+		}
+		n := len(sp.names)
+		for _, mask := range sp.masks {
+			admit := func(rep []string) bool {
+				for i := range rep {
+					if mask[i] && rep[i] != "" {
+						return false // nil symbols: one representative
+					}
+				}
+				for _, op := range sp.ops {
+					if op.kind == "RANGE" {
+						s, e := op.syms[0], op.syms[1]
+						if !mask[s] && !mask[e] && rep[s] > rep[e] {
+							return false // well-formed ranges
+						}
+						if mask[s] != mask[e] {
+							// a half-bounded range never carries the empty string (RANGEALG)
+							if (!mask[s] && rep[s] == "") || (!mask[e] && rep[e] == "") {
+								return false
+							}
+						}
+					}
+				}
+				return true
+			}
+			groups, probes := relGroups(n, admit)
+			for _, g := range groups {
+				a.n++
+				it := &ainterp{p: p, cfg: &acfg{rank: g.rank, pfx: g.pfx}}
+				sym := func(i int) av {
+					if mask[i] {
+						return av{k: akBytes, isNil: true}
+					}
+					return av{k: akBytes, sym: i}
+				}
+				mk := func(op operand) av {
+					var ks []av
+					for _, s := range op.syms {
+						ks = append(ks, sym(s))
+					}
+					return p.newScan(sc, op.kind, ks)
+				}
+				res := it.call(fn, []av{recv, mk(sp.ops[0]), mk(sp.ops[1])}, 0)
+				desc := showRel(sp.names, g, mask)
+				if it.err != "" || len(res) != 1 {
+					a.errs = append(a.errs, desc+": "+it.err)
+					continue
+				}
+				inOp := func(c *relCfg, op operand, k int) bool {
+					rk := func(i int) int { return c.rank[i] }
+					switch op.kind {
+					case "PREFIX":
+						return c.pfx[op.syms[0]][k]
+					case "MGET":
+						for _, s := range op.syms {
+							if rk(s) == rk(k) {
+								return true
+							}
+						}
+						return false
+					case "RANGE":
+						s, e := op.syms[0], op.syms[1]
+						if !mask[s] && rk(s) > rk(k) {
+							return false
+						}
+						if !mask[e] && rk(k) > rk(e) {
+							return false
+						}
+						return true
+					}
+					return false
+				}
+				anyBoth := false
+				var bad, extra string
+				illFormed := false
+				for _, pc := range probes[g.sig(n)] {
+					inL, inR := inOp(pc, sp.ops[0], n), inOp(pc, sp.ops[1], n)
+					inRes, ok := memberOfScan(pc, res[0], sc, n)
+					if !ok {
+						illFormed = true
+						break
+					}
+					want := inL && inR
+					if sp.mode == "or" {
+						want = inL || inR
+					}
+					if inL && inR {
+						anyBoth = true
+					}
+					if want && !inRes && bad == "" {
+						bad = fmt.Sprintf("key %q", pc.rep[n])
+					}
+					if inRes && extra == "" {
+						extra = fmt.Sprintf("key %q", pc.rep[n])
+					}
+				}
+				kind, _, _ := it.decodeScanKind(res[0], sc)
+				if illFormed {
+					a.errs = append(a.errs, desc+": result "+kind+" is ill-formed")
+					continue
+				}
+				if bad != "" {
+					a.unsound = append(a.unsound, fmt.Sprintf("%s -> %s loses %s", desc, it.showScanRep(res[0], kind, g), bad))
+				}
+				if sp.mode == "and" && !anyBoth && extra != "" {
+					a.loose = append(a.loose, fmt.Sprintf("%s -> %s reads %s although the operands share no key", desc, it.showScanRep(res[0], kind, g), extra))
+				}
+			}
+		}
+	}
+	for _, nm := range order {
+		a := accs[nm]
+		total += a.n
+		sort.Strings(a.unsound)
+		sort.Strings(a.loose)
+		r.note(nm+"_structures", a.n)
+		r.add(len(a.errs) == 0, nm+"|interpretable", a.pos, fmt.Sprintf("%d operand structures evaluated; %d outside the abstract domain %v", a.n, len(a.errs), head(a.errs, 2)))
+		r.add(len(a.unsound) == 0, nm+"|sound", a.pos, fmt.Sprintf("result contains every key of the %s of the operands in all %d structures; %d counter-structures %v", map[string]string{"and": "intersection", "or": "union"}[a.mode], a.n, len(a.unsound), head(a.unsound, 3)))
+		if a.mode == "and" {
+			r.add(len(a.loose) == 0, nm+"|tight", a.pos, fmt.Sprintf("nothing is read when the operands share no key, in all %d structures; %d counter-structures %v", a.n, len(a.loose), head(a.loose, 3)))
+		}
+	}
+	r.note("structures_total", total)
+	r.floor("operand structures evaluated", total, 100)
+}
+
+func (it *ainterp) decodeScanKind(v av, sc map[string]int64) (string, int64, bool) {
+	if v.k != akPtr || v.obj == nil || len(v.obj.elems) < 2 {
+		return "?", 0, false
+	}
+	tp := v.obj.elems[0].i
+	for nm, c := range sc {
+		if c == tp {
+			return nm, tp, true
+		}
+	}
+	return fmt.Sprint(tp), tp, false
+}
+
+func (it *ainterp) showScanRep(v av, kind string, c *relCfg) string {
+	if v.k != akPtr || v.obj == nil || len(v.obj.elems) < 2 {
+		return kind
+	}
+	keys := v.obj.elems[1]
+	if keys.k != akSlice || keys.obj == nil {
+		return kind
+	}
+	var parts []string
+	for _, k := range keys.obj.elems[keys.lo:keys.hi] {
+		if k.isNil || k.k != akBytes {
+			parts = append(parts, "nil")
+		} else {
+			parts = append(parts, fmt.Sprintf("%q", c.rep[k.sym]))
+		}
+	}
+	return kind + "{" + strings.Join(parts, ",") + "}"
 }
